@@ -454,7 +454,7 @@ mismatch between values and axes""".format(inferred, self.values.shape)
     # Internal constructor, useful for subclassing
     #
     @classmethod
-    def _constructor(cls, *args, **metadata):
+    def _constructor(*args, **metadata): # (cls, values, axes, **metadata): metadata may also be named 'cls'
         """ Internal API for the constructor: check whether a pre-defined class exists
 
         values        : array-like
@@ -472,7 +472,7 @@ mismatch between values and axes""".format(inferred, self.values.shape)
 
         # metadata may use any name (including 'values', 'axes', 'dtype'...): it
         # must neither clash with nor be mistaken for a constructor argument
-        args = list(args)
+        cls, args = args[0], list(args[1:])
         for name in ('values', 'axes')[len(args):]: # arguments passed by keyword
             args.append(metadata.pop(name))
         obj = cls(*args)
